@@ -281,6 +281,13 @@ def eval_pred(body, env, roles=None, max_steps=500):
                 known_ret = True
                 if ret is None:
                     return None
+            elif not t["dest"]["p"] and len(body.defs.get(t["dest"]["l"], [])) > 1:
+                # a named bool built by `a() || b()`: one of its definitions is the call itself
+                v = eval_expr(body.expr_of_call(t), env, roles)
+                if v is None:
+                    store.pop(t["dest"]["l"], None)
+                else:
+                    store[t["dest"]["l"]] = v
             if "t" not in t:
                 return None
             b = t["t"]
